@@ -257,6 +257,14 @@ func (c *diskCache) Put(ctx context.Context, kind cache.EntryKind, hash string, 
 	}
 
 	if kind == cache.CAS && size == 0 && hash == emptySha256 {
+		// The empty blob is always available, there is nothing to store.
+		// But refuse data that was declared to be the empty blob.
+		if r != nil {
+			var b [1]byte
+			if n, _ := io.ReadFull(r, b[:]); n > 0 {
+				return badReqErr("Received data for the empty blob")
+			}
+		}
 		return nil
 	}
 
